@@ -42,6 +42,14 @@ def adversarial(rng, prog):
                 nm = d["name"]
             used[d["pkg"]].add(nm)
             d["name"] = nm
+    # provider functions are numbered per package: two packages (possibly with the same package name)
+    # declare functions with the same name
+    count = {p: 0 for p in prog.pkgs}
+    for u in prog.units:
+        for it in u.items:
+            if it["kind"] == "func" and rng.random() < 0.8:
+                count[it["pkg"]] += 1
+                it["fn"] = "Mk%d" % count[it["pkg"]]
     # extra declarations in the injector package (never a name the package's own files need)
     taken = set(used["app"]) | quals | {"Anchor"}
     for nm in rng.sample(DECL_POOL, rng.randint(0, 4)):
@@ -130,7 +138,7 @@ def file_scope(prog):
                 names.add(d["name"])
         for it in u.items:
             if it.get("pkg") == "app" and it["kind"] == "func":
-                names.add("Prov%d" % it["id"])
+                names.add(it.get("fn", "Prov%d" % it["id"]))
         for s in u.sets:
             if s["pkg"] == "app" and not s["build"]:
                 names.add(s["var"])
